@@ -70,7 +70,7 @@ def main(tier, seed):
 
     def one(k):
         rng = random.Random('%d/%d' % (seed, k))
-        m = gen_nl.G(rng, dict(nobjs=(0, 1), ncons=(1, 3), nlcons=(0, 2), nvars=(2, 4), depth=rng.choice([1, 2, 2, 3]), ndv=(0, 1), compl=False, sos=False)).model()
+        m = gen_nl.G(rng, dict(nobjs=(0, 1), ncons=(1, 3), nlcons=(0, 2), nvars=(2, 4), depth=rng.choice([1, 2, 2, 3]), ndv=(0, 1), compl=True, sos=True)).model()
         if rng.random() < 0.8:
             gen_nl.make_feasible_at(m, rng)
         ops = sorted(gen_nl.model_ops(m))
